@@ -126,7 +126,8 @@ Inductive event :=
 | EList (f : nat)
 | ENegStart (f : nat)
 | ENegOk (f : nat) (mask : N) (rs : rskind)
-| ECtxErr.
+| ECtxErr
+| ECtxPass (n : nat).   (* ghost: a ctx.Done() test passed when n operations had been performed *)
 
 Inductive prog (A : Type) : Type :=
 | Ret (a : A)
@@ -292,7 +293,8 @@ Fixpoint interp {A} (pl : plan) (p : prog A) (w : world) : res A * world :=
   | WrU s k =>
       let (_, w') := do_write pl s w in interp pl k w'
   | Ctx ke k =>
-      if ctx_done pl w then (RErr, set_trace (snd (interp pl ke w)) ECtxErr) else interp pl k w
+      if ctx_done pl w then (RErr, set_trace (snd (interp pl ke w)) ECtxErr)
+      else interp pl k (set_trace w (ECtxPass (w_ops w)))
   | Call ko ke =>
       match w_calls w with
       | [] => (RStuck, w)
@@ -698,11 +700,13 @@ Definition std_call (n : nat) (cfg : config) (ns : nstate) : prog (outcome * nst
   o <- (if recv then features_receiver n cfg else features_initiator n cfg (negb (ns_started ns))) ;;
   Ret (o, mkNS (match snd o with RSNone => false | _ => true end) true).
 
-(* component.Negotiator; the receiving side is not implemented and reports an error *)
+(* component.Negotiator (as repaired: the receiving side is not implemented and reports an
+   error instead of panicking; ctx.Done() is tested before each read) *)
 Fixpoint comp_header (n : nat) (found_proc : bool) : prog bool :=   (* returns: header carries an id *)
   match n with
   | O => OutOfFuel
   | S n' =>
+      ctx ;;;
       Rd (fun t =>
         match t with
         | Decl | Junk => if found_proc then Fail else comp_header n' true
@@ -717,6 +721,7 @@ Definition comp_call (n : nat) : prog (outcome * nstate) :=
   wr WHeader ;;;
   id <- comp_header n false ;;
   wr WHandshake ;;;
+  ctx ;;;
   Rd (fun t =>
     match t with
     | Open KCompErr => skip n 0 ;;; Fail
@@ -795,6 +800,7 @@ Definition event_eqb (a b : event) : bool :=
   | EParse f, EParse g | EList f, EList g | ENegStart f, ENegStart g => f =? g
   | ENegOk f m r, ENegOk g m' r' => (f =? g) && N.eqb m m' && rskind_eqb r r'
   | ECtxErr, ECtxErr => true
+  | ECtxPass n, ECtxPass m => n =? m
   | _, _ => false
   end.
 
@@ -817,11 +823,11 @@ Record case := mkCase {
   (* observed on the implementation *)
   k_result : rclass;
   k_state : N;               (* State() of the returned session *)
-  k_trace : list event       (* oldest first; ECtxErr is not observable and is left out *)
+  k_trace : list event       (* oldest first; ECtxErr / ECtxPass are not observable and are left out *)
 }.
 
 Definition observable (e : event) : bool :=
-  match e with ECtxErr => false | _ => true end.
+  match e with ECtxErr | ECtxPass _ => false | _ => true end.
 
 Definition case_ok (c : case) : bool :=
   let (r, w) := run (k_cfg c) (k_plan c) (k_bits c) (k_clear c) (k_tls c) (k_calls c) in
